@@ -99,6 +99,9 @@ def corruptions(base, nbytes, quick, r):
     out.append((dict(kind='missing'), None, 'missing'))
     out.append((dict(kind='garbage', text='{"numtype": "int'), None, 'truncated-json'))
     out.append((dict(kind='garbage', text=''), None, 'empty-file'))
+    # JSON nested deeper than the parser's recursion limit (it fails with RecursionError, not ValueError)
+    out.append((dict(kind='garbage', text='[' * 100000 + ']' * 100000), None, 'deep-nesting'))
+    out.append((dict(kind='garbage', text='{"shape": ' + '[' * 100000 + ']' * 100000 + '}'), None, 'deep-nesting'))
     for nd in ([], [1, 2], 'x', 5, None):
         out.append((J(nd), None, 'not-dict'))
     for k in list(base):
